@@ -69,7 +69,7 @@ def ion_param(c):
         out.append("ContinuousPhotonSourceSpectrum:\n  type: Monochromatic\n  frequency: 3.28847e+15 Hz\n  total flux: 1.e-10 m^-2 s^-1")
     tb = ["TaskBasedIonizationSimulation:", "  number of photons: %d" % c["N"], "  number of iterations: %d" % c.get("iters", 2),
           "  source copy level: %d" % c.get("copy", 0), "  number of buffers: 4000", "  queue size per thread: 10000",
-          "  shared queue size: 10000", "  number of tasks: 40000", "  random seed: %d" % c.get("seed", 42),
+          "  shared queue size: 10000", "  number of tasks: %d" % c.get("ntasks", 40000), "  random seed: %d" % c.get("seed", 42),
           "  diffuse field: %s" % b(c.get("diffuse"))]
     out.append("\n".join(tb))
     if c.get("diffuse"):
@@ -95,6 +95,12 @@ def rhd_param(c):
     p += "CrossSections:\n  type: FixedValue\n  hydrogen_0: 6.3e-18 cm^2\n" + "\n".join("  %s: 0. m^2" % i for i in ZERO_IONS) + "\n"
     p += "RecombinationRates:\n  type: FixedValue\n  hydrogen_1: 4.e-13 cm^3 s^-1\n" + "\n".join("  %s: 0. m^3 s^-1" % i for i in ZERO_REC) + "\n"
     return p
+
+
+def ion_args(c):
+    """command line of a task-based photoionization run; the optional switches change the life cycle of the tasks
+    (--task-plot: tasks are kept until the reset at the end of the iteration) or skip the initial snapshot"""
+    return ["--task-based"] + (["--task-plot"] if c.get("plot") else []) + (["--no-initial-output"] if c.get("noinit") else [])
 
 
 def sources_yml(srcs):
@@ -166,7 +172,7 @@ def run_config(binary, c, threads, jitter=None, trace=True, timeout=60, noserial
         if c.get("rhd"):
             res = simrun.run_sim(binary, rhd_param(c), ["--task-based-rhd", "--number-of-steps", "1"], threads=threads, timeout=timeout, trace=False, env=env, workdir=d)
         else:
-            res = simrun.run_sim(binary, ion_param(c), ["--task-based"], threads=threads, timeout=timeout, trace=False, env=env, workdir=d)
+            res = simrun.run_sim(binary, ion_param(c), ion_args(c), threads=threads, timeout=timeout, trace=False, env=env, workdir=d)
         lines = []
         if trace and os.path.exists(tr):
             with open(tr, errors="replace") as f:
@@ -290,8 +296,20 @@ def trace_oracles(E, it):
         bad.append(("photon:requested-not-terminated", "iteration %d: %d packets requested, counter says %d terminated, task records say %d" % (iloop, req, pdone, done)))
     if nbuf != 0 or buf_in_use:
         bad.append(("photon:buffer-left-behind", "iteration %d ends with %d buffers in use (records: %s)" % (iloop, nbuf, sorted(buf_in_use)[:5])))
-    if ntask != 0:
+    pw = [v for (k, v) in it["events"] if k == "PW"]
+    plot = bool(it.get("plot")) or any(v[5] == 1 for v in pw if len(v) > 5)
+    if ntask != 0 and not plot:
+        # (with --task-plot the tasks are deliberately kept until the reset at the end of the iteration)
         bad.append(("photon:task-left-behind", "iteration %d ends with %d tasks in use" % (iloop, ntask)))
+    for v in pw:
+        # after the task reset: this is what the next iteration starts with, whatever the switches
+        if v[1] != 0:
+            bad.append(("photon:task-left-behind", "after the task reset at the end of iteration %d, %d tasks are still in use%s"
+                        % (iloop, v[1], " (run with --task-plot)" if plot else "")))
+        if v[2] != 0:
+            bad.append(("photon:buffer-left-behind", "after the reset at the end of iteration %d, %d buffers are still in use" % (iloop, v[2])))
+        if v[3] != 0 or v[4] != 0:
+            bad.append(("photon:queue-entry-left-behind", "after the reset at the end of iteration %d the queues hold %d + %d entries" % (iloop, v[3], v[4])))
     if sq != 0 or tq != 0:
         bad.append(("photon:queue-entry-left-behind", "iteration %d ends with %d entries in the shared queue and %d in the thread queues" % (iloop, sq, tq)))
     if nact != 0:
@@ -608,7 +626,9 @@ def iteration_ops(E, it, noserial=False):
             _, req, pdone, nbuf, ntask, sq, tq, nact, ncb = v
             for _ in range(nterm[0]):
                 op("term", "term ok")
-            op("end", "end done=%d bufs=%d tasks=%d queued=%d active=%d cont=%d src=0 run=0 once=ok" % (pdone, nbuf, ntask, sq + tq, nact, ncb))
+            plot = bool(it.get("plot")) or any(kk == "PW" and len(vv) > 5 and vv[5] == 1 for (kk, vv) in ev)
+            # with --task-plot the executed tasks stay in the task space until the reset (model: released at the commit)
+            op("end", "end done=%d bufs=%d tasks=%s queued=%d active=%d cont=%d src=0 run=0 once=ok" % (pdone, nbuf, "*" if plot else str(ntask), sq + tq, nact, ncb))
     return ops, exp
 
 
@@ -616,6 +636,8 @@ def model_answer_matches(model, expected):
     m = " ".join(vlib.strip_branch(model).split())
     if expected == "enq":
         return m.startswith("enq ") and m.endswith(" queued")
+    if expected.startswith("end ") and "tasks=*" in expected:
+        return re.sub(r"tasks=\d+", "tasks=*", m) == expected
     if expected.startswith("cfin left=*"):
         return re.sub(r"left=\d+", "left=*", m) == expected
     if expected == "acq-by-exiting-thread":
@@ -770,7 +792,7 @@ JITTERS_PLAIN = ["pre_subtract=1000=3000,cas_lock=30=4000", "pre_subtract=700=20
 def describe(c, threads, jitter, noserial=False):
     return "%s%s subgrids %s periodic %s N=%d iterations=%d copy level %d diffuse=%s threads=%d%s" % (
         "RHD " if c.get("rhd") else "", c.get("mode"), "x".join(str(x) for x in c["layout"]), "".join("ty"[0] if p else "n" for p in c["per"]), c["N"], c.get("iters", 2),
-        c.get("copy", 0), c.get("diffuse"), threads, (" jitter=" + jitter if jitter else "") + (" non-serialised trace" if noserial else ""))
+        c.get("copy", 0), c.get("diffuse"), threads, (" --task-plot" if c.get("plot") else "") + (" jitter=" + jitter if jitter else "") + (" non-serialised trace" if noserial else ""))
 
 
 def run_and_check(ctx, E, binary, job, drv_jobs):
@@ -781,7 +803,7 @@ def run_and_check(ctx, E, binary, job, drv_jobs):
     rep = {"config": c, "threads": threads, "jitter": jitter, "trace_on": trace, "noserial": noserial, "param": rhd_param(c) if c.get("rhd") else ion_param(c),
            "sources_yml": sources_yml(c["sources"]) if len(c.get("sources", [])) > 1 else None,
            "cmd": "%s%sCMacIonize --params run.param %s --threads %d" % ("CMAC_VERIF_NOSERIAL=1 " if noserial else "", ("LD_PRELOAD=libc01_jitter.so CMAC_VERIF_JITTER=%s " % jitter) if jitter else "",
-                                                                   "--task-based-rhd --number-of-steps 1" if c.get("rhd") else "--task-based", threads)}
+                                                                   "--task-based-rhd --number-of-steps 1" if c.get("rhd") else " ".join(ion_args(c)), threads)}
     ctx.count()
     stream = "noserial" if noserial else ("jitter" if jitter else "photon")
     rep["stream"] = stream
@@ -790,6 +812,8 @@ def run_and_check(ctx, E, binary, job, drv_jobs):
     what = describe(c, threads, jitter, noserial)
     if res["timed_out"]:
         its = split_iterations(res["trace"])
+        for it in its:
+            it["plot"] = bool(c.get("plot"))
         ctx.violation("photon:run-hangs", "the run did not finish within %d s (%s); %d iterations started; last log line: %s"
                       % (job["timeout"], what, len(its), res["log"].strip().split("\n")[-1][-160:]), dict(rep, trace_tail=res["trace"][-60:]))
         st["oracle_failures"] += 1
@@ -812,10 +836,12 @@ def run_and_check(ctx, E, binary, job, drv_jobs):
             ctx.violation("photon:run-failed", "the run ended after %d of %d iterations (%s)" % (len(res.get("diagnostics", [])), c.get("iters", 2), what), rep)
         return
     its = split_iterations(res["trace"])
+    for it in its:
+        it["plot"] = bool(c.get("plot"))
     if len(its) != c.get("iters", 2):
         ctx.broken_obligation("photon trace of %s has %d iterations, expected %d (hook H2 missing?)" % (what, len(its), c.get("iters", 2)), res["log"][-400:])
         return
-    ctx.distinct((tuple(c["layout"]), tuple(c["per"]), c["N"], c.get("copy", 0), c.get("mode"), bool(c.get("diffuse")), threads, jitter, noserial),
+    ctx.distinct((tuple(c["layout"]), tuple(c["per"]), c["N"], c.get("copy", 0), c.get("mode"), bool(c.get("diffuse")), threads, jitter, noserial, bool(c.get("plot"))),
                  nontrivial=(c["layout"] != (1, 1, 1) or c.get("diffuse") or c["N"] > 200))
     for it in its:
         bad = trace_oracles(E, it) + identity_oracles(it)
@@ -917,8 +943,19 @@ def calm(c):
 
 def make_jobs(ctx):
     jobs = corpus_jobs() + fixed_jobs()
-    for _ in range(ctx.budget(26, 330)):
-        jobs.append(dict(cfg=random_config(ctx.rng, quick=not ctx.thorough), threads=ctx.rng.choice([1, 2, 4, 8]), jitter=None))
+    for k in range(ctx.budget(24, 330)):
+        c = random_config(ctx.rng, quick=not ctx.thorough)
+        c["noinit"] = (k % 5 == 4)
+        jobs.append(dict(cfg=c, threads=ctx.rng.choice([1, 2, 4, 8]), jitter=None))
+    # optional switches that change the life cycle of the tasks: --task-plot keeps every task of an iteration in the task space
+    # until the reset at its end; >= 3 iterations and a task space of ~2.5 iterations, so that a leak ends in a full task space
+    star = [(0.1, 0.1, 0.1, "1.0e+30")]
+    jobs.append(dict(cfg=dict(layout=(2, 2, 2), per=(False, False, False), N=1234, iters=5, copy=1, sources=star, continuous=False, diffuse=False,
+                              density="0.02", seed=42, mode="discrete", plot=True, noinit=True, ntasks=150), threads=4, jitter=None))
+    for k in range(ctx.budget(2, 24)):
+        c = calm(random_config(ctx.rng))
+        c.update(plot=True, iters=3, noinit=(k % 2 == 0))
+        jobs.append(dict(cfg=c, threads=ctx.rng.choice([2, 4, 8]), jitter=None))
     # the photon loop of the radiation-hydrodynamics simulation (same contexts, discrete source only)
     for _ in range(ctx.budget(3, 40)):
         layout = tuple(ctx.rng.choice([1, 2, 2, 3]) for _ in range(3))
@@ -968,7 +1005,7 @@ def run(ctx):
         "capacities of the buffer pool, task table and queues are not exhausted (free ids are label parameters; no_stuck assumes two free buffers and nblocks+1 free task slots)",
         "sequentially consistent atomics; the non-atomic read pair (is_empty, num_photon_done) of the termination test is modelled as one read (the hook order makes every logged PZ consistent, replay checks it)",
         "packet identities are logged (CMAC_VERIF_PACKET_IDS=1) for traced runs with at most 3000 packets; the id member of PhotonPacket exists only under the guard CMACIONIZE_VERIF",
-        "--task-plot is off (otherwise tasks are deliberately kept until the end of the iteration)",
+        "--task-plot (tasks are deliberately kept in the task space until the reset at the end of the iteration) is part of the run matrix: there the number of tasks in use is checked after the reset (record PW) instead of at the end of the photon loop; trackers (`enable trackers`) and --task-plot-rhd are not in the matrix",
         "the photon loop of TaskBasedRadiationHydrodynamicsSimulation.cpp is covered at the protocol level (no continuous source => no task can be obtained after the flag was cleared, theorem after_termination_only_packet_free_tasks); its traces are not replayed in the quick tier",
     ]
     import time
@@ -1074,6 +1111,6 @@ def replay(ctx, path):
 
 MANIFEST = dict(
     category="proof",
-    text="Lean theorems over EVERY execution of the photon-packet protocol of a task-based photoionization iteration (arbitrary interleaving of the committed task actions, any number of threads, any subgrid layout / periodicity / copy wiring, discrete and continuous sources, re-emission on or off, any packet number, physics outcome of every task universally quantified): exact split of the requested number over sources and subgrid copies (split_total, batches_total); conservation N = done + sources + source tasks + buffers in use + continuous buffers (conservation); every buffer in use has exactly one owner, a task or one active-buffer entry, with 1..200 resp. 1..199 packets (ownership); no packet terminated twice, each exactly once when done = N (exactly_once, ghost packet identifiers); run flag cleared => done = N and no buffer, active buffer, source or continuous-buffer content left (termination_sound); the cached largest active buffer of a subgrid is always a real, largest one (premature_safe); the continuous-source counter is exact and buffers are flushed exactly when it is zero (continuous_bookkeeping); done < N => some label is enabled while capacities are not exhausted (no_stuck); on top, the worker loop of the threads (lstep, loop condition after fix f78e960): a dequeued task always has a live holder and when all threads have left the loop NO task, queue entry, lock or buffer is left (nothing_left_behind). Tied to the code by replaying every record of the hook-H2 trace of real multi-thread CMacIonize --task-based runs (also under seeded scheduling jitter) through the same Lean step function, by the same statements evaluated directly on the trace, by PACKET IDENTITIES (hook build: every launched packet carries a unique id that is copied with the packet and kept by a re-emission; for runs with <= 3000 packets the ids entering / leaving every traversal and re-emission task are logged, fed through the model's ghost ids and checked directly: launched once, terminated exactly once, never in two buffers, every buffer delivers what was put into it, in order), and by a differential test of DistributedPhotonSource.",
+    text="Lean theorems over EVERY execution of the photon-packet protocol of a task-based photoionization iteration (arbitrary interleaving of the committed task actions, any number of threads, any subgrid layout / periodicity / copy wiring, discrete and continuous sources, re-emission on or off, any packet number, physics outcome of every task universally quantified): exact split of the requested number over sources and subgrid copies (split_total, batches_total); conservation N = done + sources + source tasks + buffers in use + continuous buffers (conservation); every buffer in use has exactly one owner, a task or one active-buffer entry, with 1..200 resp. 1..199 packets (ownership); no packet terminated twice, each exactly once when done = N (exactly_once, ghost packet identifiers); run flag cleared => done = N and no buffer, active buffer, source or continuous-buffer content left (termination_sound); the cached largest active buffer of a subgrid is always a real, largest one (premature_safe); the continuous-source counter is exact and buffers are flushed exactly when it is zero (continuous_bookkeeping); done < N => some label is enabled while capacities are not exhausted (no_stuck); on top, the worker loop of the threads (lstep, loop condition after fix f78e960): a dequeued task always has a live holder and when all threads have left the loop NO task, queue entry, lock or buffer is left (nothing_left_behind); task space after the reset is empty in both life-cycle modes, tasks released when executed / --task-plot (next_iteration_starts_clean, clear_fast_leaks_with_plot). Tied to the code by replaying every record of the hook-H2 trace of real multi-thread CMacIonize --task-based runs (also under seeded scheduling jitter) through the same Lean step function, by the same statements evaluated directly on the trace, by PACKET IDENTITIES (hook build: every launched packet carries a unique id that is copied with the packet and kept by a re-emission; for runs with <= 3000 packets the ids entering / leaving every traversal and re-emission task are logged, fed through the model's ghost ids and checked directly: launched once, terminated exactly once, never in two buffers, every buffer delivers what was put into it, in order), and by a differential test of DistributedPhotonSource.",
     note="Trusted: Lean kernel + 3 axioms; hand model of the seven task contexts, MemorySpace::add_photons, the photon loop and DistributedPhotonSource; task-level atomicity of commits (lock discipline is C08) and sequentially consistent atomics; the trace hook serialises commit bookkeeping (not the physics) through one mutex. NOT proved: termination (with re-emission it only holds with probability 1; no_stuck is the provable part); capacities of buffer pool / task table / queues are assumed sufficient. A run that does not finish within 60-90 s or dies is reported as a violation. The RHD photon loop is covered by the protocol theorems only (discrete sources: no task exists after termination).",
     technique="Lean 4 proof (inductive invariant + weight function generic in a packet weight: length gives conservation, indicator gives exactly-once; thread-loop invariant on top) + trace refinement check against the real hooked binary under scheduling jitter + differential harness")
